@@ -246,12 +246,29 @@ static void run_hist(int deep)
 	for (int subset = 0; subset < 2; subset++) {
 		memcpy(&hc, &H, sizeof hc);
 		int r = -999;
-		memset(&HT, 0xEE, sizeof HT);
 		cpu_set_level(CPU_AVX2);
+		/* both objects are exactly their struct size and end at an inaccessible page (canaries in front); the table object is
+		 * pre-filled, the histogram is copied back afterwards */
+		struct isal_hufftables *ht = g_alloc(sizeof *ht, G_END);
+		struct isal_huff_histogram *hh = g_alloc(sizeof *hh, G_END);
+		memset(ht, 0xEE, sizeof *ht);
+		memcpy(hh, &H, sizeof *hh);
+		int outside = 0;
 		if (V_TRY()) {
-			r = subset ? isal_create_hufftables_subset(&HT, &H) : isal_create_hufftables(&HT, &H);
+			r = subset ? isal_create_hufftables_subset(ht, hh) : isal_create_hufftables(ht, hh);
 			V_END();
+			memcpy(&HT, ht, sizeof HT);
+			memcpy(&H, hh, sizeof H);
+			outside = g_check();
+			g_reset();
+			if (outside) {
+				char key[420];
+				snprintf(key, sizeof key, "%s wrote outside its objects %s", subset ? "isal_create_hufftables_subset" : "isal_create_hufftables", hdesc);
+				v_violation(key, "%s", g_last_damage());
+				nfail++;
+			}
 		} else {
+			g_reset();
 			char key[420];
 			snprintf(key, sizeof key, "%s %s", subset ? "isal_create_hufftables_subset" : "isal_create_hufftables", hdesc);
 			v_violation(key, "%s at %s (table creation must succeed for any histogram)", v_fault_sig == 6 ? "assertion failed / abort" : "fault", v_sym(v_fault_rip));
